@@ -39,6 +39,34 @@ def make_cases(seed, tier):
     return cases
 
 
+MT_GEN = {0: "Pos_merkletree_seq", 1: "Pos_merkletree_avx", 2: "Pos_merkletree_avx512", 3: "Pos_merkletree"}
+MTB_GEN = {0: "Pos_merkletree_batch_seq", 1: "Pos_merkletree_batch_avx", 2: "Pos_merkletree_batch_avx512", 3: "Pos_merkletree_batch"}
+
+
+def generated_cases(cases, every=1):
+    """the requests of the hand-modelled builders addressed to the TRANSLATED builders (module MerkleGen): the tree buffer is
+    passed as a region of exactly getTreeNumElements(rows) sentinel words and returned whole"""
+    out = []
+    for idx, c in enumerate(cases):
+        toks = c["line"].lstrip("!").split()
+        if toks[0] not in ("mt", "mtb") or idx % every:
+            continue
+        v, rows, cols, dim = int(toks[1], 16), int(toks[2], 16), int(toks[3], 16), int(toks[4], 16)
+        tn = 4 * (2 * rows - 1) if rows else 0
+        tree = "[ %s ]" % " ".join(["a5a5"] * tn)
+        if toks[0] == "mt":
+            thr, inp = toks[5], " ".join(toks[6:])
+            line = "!%s %s %s %x %x %s %x" % (MT_GEN[v], tree, inp, cols, rows, thr, dim)
+        else:
+            batch, thr, inp = toks[5], toks[6], " ".join(toks[7:])
+            line = "!%s %s %s %x %x %s %s %x" % (MTB_GEN[v], tree, inp, cols, rows, batch, thr, dim)
+        g = dict(c)
+        g["line"] = line
+        g["key"] = c["key"] + "/generated"
+        out.append(g)
+    return out
+
+
 def campaign(res, harness, driver, cases, flavour):
     lines = [c["line"] for c in cases]
     impl = run_parallel(harness, lines, timeout=900)
@@ -65,9 +93,16 @@ def run(tier, seed):
     res.rule = ("shape grid rows in {1,2,4,8,16(,32,64)} x cols in {0..17} x dim in {1,3} x batch in {1,2,3,4,7,cols,cols+1} x "
                 "backend in {seq, avx, avx512, default wrapper} x threads in {0,1,2,3,16}; every element of the tree buffer is "
                 "compared, buffers are exact-size with redzones, each call runs in a forked child; distinct = distinct shape")
-    res.assumptions = ["rows a power of two (as the property states); hand model tied to the code on the executed shapes only"]
+    res.assumptions = ["rows a power of two (as the property states); hand model tied to the code on the executed shapes only",
+                       "the six builders and the two default wrappers are also TRANSLATED from the C++ on every run (Gen/MerkleGen.lean: "
+                       "OpenMP loops sequentially, while loop fuel-bounded, floor() on doubles holding integers) and executed against "
+                       "the code on the same grid",
+                       "C08_generated_merkletree_seq / C08_generated_merkletree_avx_is_tree: for rows = 2^k (k <= 48), rows*cols*dim < 2^64 "
+                       "and fuel > rows, cols*dim the translated builder returns Model.merkleTree (leaf = sponge over the translated "
+                       "permutation, node = translated hash) in the first 4(2 rows - 1) words and writes nothing else; the AVX512 / "
+                       "batched builders and the default wrappers are translated and executed, without a bridge theorem"]
     st = run_gen()
-    standard_proof_phase(res, MODULE, "C08_", st, ["PosScalar", "PosAvx2", "PosAvx512"], thorough=(tier == "thorough"))
+    standard_proof_phase(res, MODULE, "C08_", st, ["PosScalar", "PosAvx2", "PosAvx512", "LinearHashGen", "MerkleGen"], thorough=(tier == "thorough"))
     drv, err = build_driver()
     if err:
         res.broken.append(("model driver build", err))
@@ -78,7 +113,8 @@ def run(tier, seed):
             res.broken.append(("harness build (%s)" % fl, err))
             continue
         if drv:
-            campaign(res, h, drv, make_cases(seed + len(fl), tier), fl)
+            cases = make_cases(seed + len(fl), tier)
+            campaign(res, h, drv, cases + generated_cases(cases, every=(2 if tier == "quick" else 1)), fl)
     # the tree must not depend on how many members the OpenMP runtime GRANTS (nested region, thread limit) nor on their
     # order: the same grid, 5 threads requested, on the stand-in runtime of the C12 check granting 1, 2 or all, permuted
     hs, err = build_harness("ompseq")
